@@ -230,7 +230,13 @@ def run_in_pieces(events, rng):
     cp = CallstacksParser([], [])
     cuts = sorted(rng.randrange(len(events) + 1) for _ in range(rng.choice((1, 2, 5, len(events) // 2 + 1))))
     out, prev = [], 0
-    for c in cuts + [len(events)]:
+    for k, c in enumerate(cuts + [len(events)]):
+        if k and rng.random() < 0.3:
+            # between two pieces both parsers are replaced by a checkpoint of themselves (a deep copy, or a pickle round
+            # trip: equal ints / strings / lists come back as other objects)
+            import copy
+            import pickle
+            tp, cp = copy.deepcopy((tp, cp)) if rng.random() < 0.5 else pickle.loads(pickle.dumps((tp, cp)))
         out += list(cp.feed_generator(tp.feed_generator(iter(events[prev:c]))))
         prev = c
     return out, len(cuts) + 1
